@@ -306,6 +306,16 @@ func trustingDecode(d, p int, shards [][]byte) decoded {
 	if err != nil {
 		panic(err)
 	}
+	// since /repo efaafa5 the store refuses to open a part with fewer than d usable shards
+	usable := 0
+	for _, r := range rs {
+		if r != nil {
+			usable++
+		}
+	}
+	if usable < d {
+		return decoded{err: true}
+	}
 	var out []byte
 	for si := uint64(0); ; si++ {
 		sh := make([][]byte, total)
